@@ -282,6 +282,45 @@ fn negatives() -> Vec<(&'static str, String, bool)> {
     ]
 }
 
+
+/// The merge lattice: a diamond whose two incoming paths reach the merge point with systematically varied
+/// variable sets. Both paths start with [0] and [5] live; each path applies one edit (none / consume [5] /
+/// define [6] / consume [5] and define [6]), and the code after the merge consumes a subset of {[5], [6]}.
+/// The jump path reaches the merge statement first, the fall-through path second. Well-formed exactly when
+/// both paths agree and everything is consumed (the independent checker decides).
+fn merge_lattice() -> Vec<(String, String)> {
+    let edits: [(&str, &[&str]); 4] = [("none", &[]), ("consume5", &["drop<felt252>([5]) -> ();"]), ("define6", &["felt252_const<7>() -> ([6]);"]), ("consume5+define6", &["drop<felt252>([5]) -> ();", "felt252_const<7>() -> ([6]);"])];
+    let afters: [(&str, &[&str]); 4] = [("none", &[]), ("drop5", &["drop<felt252>([5]) -> ();"]), ("drop6", &["drop<felt252>([6]) -> ();"]), ("drop5+drop6", &["drop<felt252>([5]) -> ();", "drop<felt252>([6]) -> ();"])];
+    let mut out = vec![];
+    for (an, a) in &edits {
+        for (bn, b) in &edits {
+            for (cn, c) in &afters {
+                // 0: dup [0] -> [0],[1]; 1: dup [0] -> [0],[5]; 2: is_zero([1]) { fallthrough() T([2]) };
+                // 3: branch_align; a...; jump M; T: branch_align; drop nz; b...; M: after...; store_temp; return
+                let t = 3 + 1 + a.len() + 1;
+                let m = t + 2 + b.len();
+                let mut st: Vec<String> = vec![
+                    "dup<felt252>([0]) -> ([0], [1]);".into(),
+                    "dup<felt252>([0]) -> ([0], [5]);".into(),
+                    format!("felt252_is_zero([1]) {{ fallthrough() {t}([2]) }};"),
+                    "branch_align() -> ();".into(),
+                ];
+                st.extend(a.iter().map(|x| x.to_string()));
+                st.push(format!("jump() {{ {m}() }};"));
+                st.push("branch_align() -> ();".into());
+                st.push("drop<NonZero<felt252>>([2]) -> ();".into());
+                st.extend(b.iter().map(|x| x.to_string()));
+                st.extend(c.iter().map(|x| x.to_string()));
+                st.push("store_temp<felt252>([0]) -> ([0]);".into());
+                st.push("return([0]);".into());
+                let text = format!("{BASE_TYPES}\n{BASE}libfunc felt252_const<7> = felt252_const<7>;\n{}\ntest::f@0([0]: felt252) -> (felt252);", st.join("\n"));
+                out.push((format!("merge:jump-path={an}:fallthrough-path={bn}:after={cn}"), text));
+            }
+        }
+    }
+    out
+}
+
 fn run(ctx: &mut Ctx) {
     let tier = ctx.tier;
     // vacuity guard: the checker rejects the hand-broken negatives and accepts the positives
@@ -301,6 +340,32 @@ fn run(ctx: &mut Ctx) {
                     ctx.violation(format!("accepted-but-ill-typed:negative:{name}"), format!("compile accepts the hand-broken program '{name}': {r:?}"), json!({"case": name, "program": text}));
                 }
                 ctx.outcome(&format!("negative:{name}:compile={compiled}:checker={}", r.is_ok()));
+            }
+        },
+    );
+    // the merge lattice: both verdicts on every combination of path edits
+    ctx.case(
+        || json!({"space":"merge-lattice"}),
+        |ctx| {
+            let (mut both_accept, mut both_reject) = (0, 0);
+            for (name, text) in merge_lattice() {
+                let p = ProgramParser::new().parse(&text).unwrap_or_else(|e| panic!("harness: merge lattice program {name} does not parse: {e:?}"));
+                let mut stats = CheckStats { states: 0, transitions: 0 };
+                let r = check_program(&p, &mut stats);
+                ctx.count("evaluations", 1);
+                ctx.count("merge_lattice_programs", 1);
+                let compiled = matches!(ctx.guarded(|| pipeline(&p, true)), Ok(Stage::Ok));
+                match (compiled, r.is_ok()) {
+                    (true, true) => both_accept += 1,
+                    (false, false) => both_reject += 1,
+                    (true, false) => ctx.violation(format!("accepted-but-ill-typed:{}", name.split(":after").next().unwrap_or("")), format!("compile accepts a program whose paths merge with different variables: {r:?}"), json!({"case": name, "program": text})),
+                    (false, true) => ctx.count("well_typed_but_rejected", 1),
+                }
+            }
+            ctx.count("merge_lattice_both_accept", both_accept);
+            ctx.count("merge_lattice_both_reject", both_reject);
+            if both_accept < 3 || both_reject < 30 {
+                ctx.violation("harness:merge-lattice-vacuous", format!("the merge lattice has {both_accept} programs accepted by both and {both_reject} rejected by both"), json!({}));
             }
         },
     );
@@ -417,7 +482,7 @@ fn run_both(ctx: &mut Ctx) {
 pub static C15: CheckDef = CheckDef {
     id: "C15",
     level: "model_checking",
-    rule: "[thorough adds second-order mutants MUT(MUT(s)) of the <=200 smallest programs (<=9 statements), ~10^7 programs] [seed programs: the corpus plus the compiling wrapper programs of the C14 instantiation lattice (quick: every 4th)] Model: an independent abstract interpreter (no code shared with annotations.rs/references.rs) over states (statement index, map var -> type), exploring every control-flow path of every function with a worklist; libfunc signatures come from ProgramRegistry. Transfer: args must be live with exactly the parameter types and are consumed; results are added with the branch's types and may not override a live var; a statement reached twice must see the identical map and the same function; every target of a multi-branch invocation must be an alignment point; return needs exactly the declared types and nothing left over. Enumerated: the whole C14(a) single-point mutation space of the corpus programs + the unmutated programs + hand-broken negatives (vacuity guard). Conformance: for EVERY mutant both verdicts are computed; compile==Ok && checker==Err is the violation; states/transitions = abstract states and branch edges explored by the checker; traces_validated_against_impl = accepted programs on which both verdicts were compared; observed_outcomes is the 2x2 agreement matrix. The checker is independent of the registry where the property speaks about types: the signatures of drop / dup / store_temp / rename / struct_construct / struct_deconstruct / enum_init / function_call are recomputed from the type and function declarations and must equal the registry's, and drop / dup are admitted only for types its own structural table calls droppable / duplicatable (18 hand-broken negatives incl. dup of an array, drop of a dict / builtin, dup of a struct holding an array, call with a wrong argument type / arity, colliding parameter ids, a wrong return type, a variable left over on one path).",
+    rule: "[thorough adds second-order mutants MUT(MUT(s)) of the <=200 smallest programs (<=9 statements), ~10^7 programs] [seed programs: the corpus plus the compiling wrapper programs of the C14 instantiation lattice (quick: every 4th)] Model: an independent abstract interpreter (no code shared with annotations.rs/references.rs) over states (statement index, map var -> type), exploring every control-flow path of every function with a worklist; libfunc signatures come from ProgramRegistry. Transfer: args must be live with exactly the parameter types and are consumed; results are added with the branch's types and may not override a live var; a statement reached twice must see the identical map and the same function; every target of a multi-branch invocation must be an alignment point; return needs exactly the declared types and nothing left over. Enumerated: the whole C14(a) single-point mutation space of the corpus programs + the unmutated programs + hand-broken negatives (vacuity guard). Conformance: for EVERY mutant both verdicts are computed; compile==Ok && checker==Err is the violation; states/transitions = abstract states and branch edges explored by the checker; traces_validated_against_impl = accepted programs on which both verdicts were compared; observed_outcomes is the 2x2 agreement matrix. The checker is independent of the registry where the property speaks about types: the signatures of drop / dup / store_temp / rename / struct_construct / struct_deconstruct / enum_init / function_call are recomputed from the type and function declarations and must equal the registry's, and drop / dup are admitted only for types its own structural table calls droppable / duplicatable (18 hand-broken negatives incl. dup of an array, drop of a dict / builtin, dup of a struct holding an array, call with a wrong argument type / arity, colliding parameter ids, a wrong return type, a variable left over on one path), plus the merge lattice: a diamond whose jump path and fall-through path each apply one of {nothing, consume [5], define [6], both} and whose tail consumes one of four subsets of {[5], [6]} (64 programs, both verdicts on each).",
     assumptions: &["libfunc signatures as reported by ProgramRegistry are the specification of each operation's types (the property's own observation point)", "dup/drop legality is enforced by the registry's specialization and not re-derived"],
     run: run_both,
     stack_mb: 8,
